@@ -432,6 +432,96 @@ pub fn swarm(prop: Prop, r: &mut Rng, pools: &Pools, corpus_len: usize) -> Swarm
         utts = vec![make_utt(r, corpus_len, 2)];
         nops = prelude.len() + 4;
     }
+    // rare marathon runs: one process lives through hundreds to thousands of calls on many distinct
+    // utterances (a bounded cache overflows and evicts, a call counter crosses its threshold, a
+    // lazily built table is reused far from where it was built), then early keys are revisited.
+    // Everything else in a batch is a short history in a young process.
+    let mut marathon = false;
+    if matches!(prop, Prop::C02 | Prop::C03) && !heavy && prelude.is_empty() && r.chance(if prop == Prop::C03 { 0.004 } else { 0.0012 }) {
+        marathon = true;
+        let n = *r.pick(&[150usize, 300, 700, 1500, 3000]);
+        let mi = 0;
+        let v = VoiceRef::Gen(VoiceSpec { meta: metas[mi].0.clone(), body: pools.body(metas[mi].1, 0) });
+        let v2 = VoiceRef::Gen(VoiceSpec { meta: metas[mi].0.clone(), body: pools.body(metas[mi].1, 1) });
+        let nt = r.range(1, 4) as u8;
+        prelude.push(TOp { task: 0, op: Op::Load { e: 0, voices: vec![v.clone()], via_files: false } });
+        for _ in 0..r.range(0, 3) {
+            prelude.push(TOp { task: 0, op: Op::Set { e: 0, s: envelope_setter(r, 3, true) } });
+        }
+        // n distinct short utterances: the first line walks through the corpus, so no two are equal
+        let start = r.below(corpus_len);
+        let stride = *r.pick(&[1usize, 7, 31]);
+        let pool: Vec<Utt> = (0..n)
+            .map(|i| {
+                let mut lines = vec![((start + i * stride) % corpus_len) as u32];
+                if r.chance(0.3) {
+                    lines.push(r.below(corpus_len) as u32);
+                }
+                Utt { lines, timed: 0 }
+            })
+            .collect();
+        let revisit = |r: &mut Rng, upto: usize| -> Vec<usize> {
+            let mut v: Vec<usize> = (0..upto.min(6)).collect();
+            for _ in 0..10 {
+                v.push(r.below(upto));
+            }
+            v.extend(upto.saturating_sub(4)..upto);
+            v
+        };
+        if prop == Prop::C03 {
+            for (i, u) in pool.iter().enumerate() {
+                let t = (i % nt as usize) as u8;
+                prelude.push(TOp { task: t, op: Op::Synth { e: 0, utt: u.clone(), form: if i % 5 == 4 { Form::VecLabel } else { Form::Slice } } });
+                if i % 97 == 96 {
+                    // engines come and go while the process ages
+                    prelude.push(TOp { task: t, op: Op::CloneEngine { src: 0, dst: 1 } });
+                    prelude.push(TOp { task: t, op: Op::Synth { e: 1, utt: pool[i / 2].clone(), form: Form::Slice } });
+                    prelude.push(TOp { task: t, op: Op::DropEngine { e: 1 } });
+                }
+                if i % 211 == 210 {
+                    prelude.push(TOp { task: t, op: Op::Load { e: 2, voices: vec![v2.clone()], via_files: true } });
+                    prelude.push(TOp { task: t, op: Op::Synth { e: 2, utt: u.clone(), form: Form::Slice } });
+                    prelude.push(TOp { task: t, op: Op::DropEngine { e: 2 } });
+                }
+                if i > 0 && (i & (i - 1)) == 0 && i >= 32 {
+                    // at every power of two: look back at a few early and recent keys
+                    for k in revisit(r, i) {
+                        prelude.push(TOp { task: t, op: Op::Synth { e: 0, utt: pool[k].clone(), form: Form::Slice } });
+                    }
+                }
+            }
+            for k in revisit(r, n) {
+                prelude.push(TOp { task: 0, op: Op::Synth { e: 0, utt: pool[k].clone(), form: Form::Slice } });
+            }
+            // the same keys on a second engine built late in the process's life
+            prelude.push(TOp { task: 0, op: Op::CloneEngine { src: 0, dst: 3 } });
+            for k in revisit(r, n) {
+                prelude.push(TOp { task: 1 % nt, op: Op::Synth { e: 3, utt: pool[k].clone(), form: Form::Slice } });
+            }
+        } else {
+            // C02: hundreds of generators of one engine, one after the other and overlapping in pairs
+            for (i, u) in pool.iter().enumerate() {
+                let t = (i % nt as usize) as u8;
+                let g = i % 2;
+                prelude.push(TOp { task: t, op: Op::NewGen { e: 0, g, utt: u.clone() } });
+                match i % 4 {
+                    0 => prelude.push(TOp { task: t, op: Op::Drain { g, max: 100_000 } }),
+                    1 => {
+                        prelude.push(TOp { task: t, op: Op::Step { g, extra: 0 } });
+                        prelude.push(TOp { task: t, op: Op::Step { g, extra: i % 7 } });
+                    }
+                    2 => prelude.push(TOp { task: t, op: Op::Drain { g, max: 1 + i % 5 } }),
+                    _ => {}
+                }
+                if i % 3 != 2 {
+                    prelude.push(TOp { task: t, op: Op::Query { g } });
+                    prelude.push(TOp { task: t, op: Op::Finish { g } });
+                }
+            }
+        }
+        utts = vec![pool[0].clone(), pool[n / 2].clone(), pool[n - 1].clone()];
+        nops = prelude.len() + 6;
+    }
     // targets (C03): small set of complete-ish conditions reached through different histories
     let ntargets = r.range(1, 3);
     let mut targets = Vec::new();
@@ -453,7 +543,13 @@ pub fn swarm(prop: Prop, r: &mut Rng, pools: &Pools, corpus_len: usize) -> Swarm
     Swarm {
         ntasks: r.range(1, 6) as u8,
         nops,
-        profile: if prelude.is_empty() { profile } else { "long_audio" },
+        profile: if prelude.is_empty() {
+            profile
+        } else if marathon {
+            "marathon"
+        } else {
+            "long_audio"
+        },
         heavy,
         metas: metas.iter().map(|m| m.0.clone()).collect(),
         bodies: metas.iter().flat_map(|m| bodies.iter().map(|k| pools.body(m.1, *k as usize)).collect::<Vec<_>>()).collect(),
